@@ -175,9 +175,10 @@ func checkC06(r *core.Run) {
 		}
 		r.Check(n == 1 && okFF, "R-C06-tie", "fallback-branch-choice", p.Pos(ff.Pos()), "a sibling branch replaces the best so far only with strictly more work (the first-added branch wins ties)", fmt.Sprintf("FindFarthestNode: %d candidate/best comparisons, strict: %v - on equal work a later-added branch would replace the earlier one", n, okFF))
 	}
-	c06UndoRecord(r, p)
+	c06UndoRecord(r, p, "R-C06-undo-record")
 	c06UndoApply(r, p)
 	c06Order(r, p)
+	c06WalkGuard(r, p, "R-C06-order")
 	c06FlagsAfterHeight(r, p, "R-C06-order")
 }
 
@@ -253,8 +254,7 @@ func c06FlagsAfterHeight(r *core.Run, p *core.Program, rule string) {
 	r.Check(n >= 1, rule, "flags-after-height/sites", "-", fmt.Sprintf("%d sites give flags to a re-read block", n), "no site found that re-reads a block and derives its flags (the reorganisation path)")
 }
 
-func c06UndoRecord(r *core.Run, p *core.Program) {
-	const rule = "R-C06-undo-record"
+func c06UndoRecord(r *core.Run, p *core.Program, rule string) {
 	ct := p.Func("lib/chain.(*Chain).commitTxs")
 	if ct == nil {
 		r.Fail(rule, "commitTxs", "-", "not found")
@@ -559,4 +559,74 @@ func c06VarargAtoms(c ssa.CallInstruction) map[string]bool {
 		}
 	}
 	return out
+}
+
+// c06WalkGuard: MoveToBlock walks from the destination down the new branch one parent at a time.  A node
+// of the new branch may be known by header only (TxCount == 0): every step of that walker has to be
+// conditional, in the same iteration, on the data of the node it steps TO being present - the test reads
+// walker.Parent.TxCount and its "no data" outcome returns.  (Testing another node - e.g. the companion
+// walker on the old branch - lets the search continue past a block that cannot be connected.)
+func c06WalkGuard(r *core.Run, p *core.Program, rule string) {
+	fn := p.Func("lib/chain.(*Chain).MoveToBlock")
+	if fn == nil {
+		r.Fail(rule, "walk-guard", "-", "MoveToBlock not found")
+		return
+	}
+	n := 0
+	var bad []string
+	for _, b := range fn.Blocks {
+		for _, ins := range b.Instrs {
+			phi, ok := ins.(*ssa.Phi)
+			if !ok || !strings.HasSuffix(an.TypeName(an.Deref(phi.Type())), "chain.BlockTreeNode") {
+				continue
+			}
+			fromDst := false
+			for _, l := range an.PhiLeaves(phi) {
+				if l == ssa.Value(fn.Params[1]) {
+					fromDst = true
+				}
+			}
+			if !fromDst {
+				continue
+			}
+			e := an.Expr(phi)
+			for i, ed := range phi.Edges {
+				if an.Expr(ed) != e+".Parent" {
+					continue
+				}
+				n++
+				cond := "(" + e + ".Parent.TxCount == 0)"
+				if !an.HasCond(an.DomConds(b.Preds[i]), cond, false) && !an.HasCond(an.EdgeConds(b.Preds[i], b), cond, false) {
+					bad = append(bad, "the step "+e+" = "+e+".Parent (loop at "+p.Pos(phi.Pos())+") is not conditional on "+e+".Parent.TxCount != 0")
+					continue
+				}
+				// the "no data" outcome must leave the function without a further step
+				okExit := false
+				for _, bb := range fn.Blocks {
+					if iff, isIf := bb.Instrs[len(bb.Instrs)-1].(*ssa.If); isIf && an.Expr(iff.Cond) == cond {
+						okExit = true
+						seen := map[*ssa.BasicBlock]bool{}
+						st := []*ssa.BasicBlock{bb.Succs[0]}
+						for len(st) > 0 {
+							x := st[len(st)-1]
+							st = st[:len(st)-1]
+							if seen[x] {
+								continue
+							}
+							seen[x] = true
+							if x == b {
+								okExit = false
+							}
+							st = append(st, x.Succs...)
+						}
+					}
+				}
+				if !okExit {
+					bad = append(bad, "after "+cond+" the walk at "+p.Pos(phi.Pos())+" can continue")
+				}
+			}
+		}
+	}
+	sort.Strings(bad)
+	r.Check(len(bad) == 0 && n >= 2, rule, "walk-guard", p.Pos(fn.Pos()), fmt.Sprintf("%d parent steps on the destination's branch, each taken only when the parent's data is present", n), strings.Join(bad, "; "))
 }
